@@ -19,10 +19,10 @@ EXTENDS Integers, Sequences, FiniteSets, TLC, Json, IOUtils
 
 Trace == ndJsonDeserialize(IOEnv.TRACE_FILE)
 
-VARIABLES l, scn, hooks, pred, reqi, tx, acq, step, lastw, pendA, failedH, okH, open, cancelled, cmds, laterStart, lateErr, sawAfter,
+VARIABLES l, scn, hooks, pred, reqi, tx, acq, step, lastw, pendA, pendN, failedH, okH, open, cancelled, cmds, laterStart, lateErr, sawAfter,
           inWin, winStarted, outStarted, run, runView, seen, pg, ended, endS, endC, nviol
 
-vars == <<l, scn, hooks, pred, reqi, tx, acq, step, lastw, pendA, failedH, okH, open, cancelled, cmds, laterStart, lateErr, sawAfter, inWin, winStarted, outStarted, run, runView, seen, pg, ended, endS, endC, nviol>>
+vars == <<l, scn, hooks, pred, reqi, tx, acq, step, lastw, pendA, pendN, failedH, okH, open, cancelled, cmds, laterStart, lateErr, sawAfter, inWin, winStarted, outStarted, run, runView, seen, pg, ended, endS, endC, nviol>>
 
 Line == Trace[l]
 Soft(name, cond, detail) == IF cond THEN 0 ELSE IF PrintT(<<"VIOL", name, scn, l, detail>>) THEN 1 ELSE 1
@@ -38,14 +38,14 @@ NoSeen == [sosor |-> 0, eosor |-> 0, soeor |-> 0, eoeor |-> 0]
 
 Init ==
   /\ l = 1 /\ scn = -1 /\ hooks = <<>> /\ pred = <<>> /\ reqi = 0 /\ tx = "" /\ acq = "" /\ step = NoStep /\ lastw = -100000
-  /\ open = {} /\ pendA = {} /\ failedH = {} /\ okH = {} /\ cancelled = FALSE /\ cmds = 0 /\ laterStart = FALSE /\ lateErr = FALSE /\ sawAfter = FALSE
+  /\ open = {} /\ pendA = {} /\ pendN = <<>> /\ failedH = {} /\ okH = {} /\ cancelled = FALSE /\ cmds = 0 /\ laterStart = FALSE /\ lateErr = FALSE /\ sawAfter = FALSE
   /\ inWin = FALSE /\ winStarted = {} /\ outStarted = {}
   /\ run = 0 /\ runView = NoView /\ seen = NoSeen /\ pg = {} /\ ended = TRUE /\ endS = 0 /\ endC = 0 /\ nviol = 0
 
 TReset ==
   /\ Line.ev = "Reset"
   /\ scn' = Line.scn /\ hooks' = Line.model.hooks /\ pred' = Line.model.pred /\ reqi' = 0 /\ tx' = "" /\ acq' = ""
-  /\ step' = NoStep /\ lastw' = -100000 /\ open' = {} /\ pendA' = {} /\ failedH' = {} /\ okH' = {} /\ cancelled' = FALSE /\ cmds' = 0 /\ laterStart' = FALSE /\ lateErr' = FALSE /\ sawAfter' = FALSE
+  /\ step' = NoStep /\ lastw' = -100000 /\ open' = {} /\ pendA' = {} /\ pendN' = <<>> /\ failedH' = {} /\ okH' = {} /\ cancelled' = FALSE /\ cmds' = 0 /\ laterStart' = FALSE /\ lateErr' = FALSE /\ sawAfter' = FALSE
   /\ inWin' = FALSE /\ winStarted' = {} /\ outStarted' = {}
   /\ run' = 0 /\ runView' = NoView /\ seen' = NoSeen /\ pg' = {} /\ ended' = TRUE /\ endS' = 0 /\ endC' = 0
   /\ UNCHANGED nviol
@@ -53,7 +53,7 @@ TReset ==
 TAcq ==
   /\ Line.ev = "Acq"
   /\ tx' = Line.what /\ acq' = Line.st /\ cancelled' = FALSE /\ cmds' = 0 /\ laterStart' = FALSE /\ lateErr' = FALSE /\ sawAfter' = FALSE
-  /\ UNCHANGED <<scn, hooks, pred, reqi, step, lastw, pendA, failedH, okH, open, inWin, winStarted, outStarted, run, runView, seen, pg, ended, endS, endC, nviol>>
+  /\ UNCHANGED <<scn, hooks, pred, reqi, step, lastw, pendA, pendN, failedH, okH, open, inWin, winStarted, outStarted, run, runView, seen, pg, ended, endS, endC, nviol>>
 
 \* end of a transition: the C09 clauses about what a failure at each moment means
 TRel ==
@@ -66,7 +66,13 @@ TRel ==
        + Soft("Gone", pg = {}, pg)
   /\ pg' = {}
   /\ tx' = "" /\ acq' = "" /\ cancelled' = FALSE /\ cmds' = 0 /\ laterStart' = FALSE /\ lateErr' = FALSE /\ sawAfter' = FALSE
-  /\ UNCHANGED <<scn, hooks, pred, reqi, step, lastw, pendA, failedH, okH, open, inWin, winStarted, outStarted, run, runView, seen, ended, endS, endC>>
+  /\ UNCHANGED <<scn, hooks, pred, reqi, step, lastw, pendA, pendN, failedH, okH, open, inWin, winStarted, outStarted, run, runView, seen, ended, endS, endC>>
+
+\* started and not yet collected instances per hook (a hook may be started again before it was collected)
+Cnt(f, h) == IF h \in DOMAIN f THEN f[h] ELSE 0
+Occ(seq, h) == Cardinality({i \in 1..Len(seq) : seq[i] = h})
+AddN(f, seq) == [h \in DOMAIN f \cup {seq[i] : i \in 1..Len(seq)} |-> Cnt(f, h) + Occ(seq, h)]
+SubN(f, seq) == [h \in DOMAIN f \cup {seq[i] : i \in 1..Len(seq)} |-> IF Cnt(f, h) > Occ(seq, h) THEN Cnt(f, h) - Occ(seq, h) ELSE 0]
 
 AwaitHere(h, m) == HK(h).am = m /\ (HK(h).tm # m \/ HK(h).aw >= HK(h).tw)
 
@@ -102,7 +108,7 @@ TStep ==
                         <<Line.m, Line.k>>)
   /\ inWin' = IF Line.phase = "end" /\ Line.m = "after_STOP_ACTIVITY" THEN FALSE ELSE inWin
   /\ winStarted' = IF Line.phase = "end" /\ Line.m = "after_STOP_ACTIVITY" THEN {} ELSE winStarted
-  /\ UNCHANGED <<scn, hooks, pred, reqi, tx, acq, pendA, failedH, okH, open, cmds, outStarted, run, runView, seen, pg, ended, endS, endC>>
+  /\ UNCHANGED <<scn, hooks, pred, reqi, tx, acq, pendA, pendN, failedH, okH, open, cmds, outStarted, run, runView, seen, pg, ended, endS, endC>>
 
 \* a probe hook starts: where, in which order, and what it sees of the run
 THS ==
@@ -142,13 +148,14 @@ THS ==
                                /\ (Line.soeor # 0 /\ Line.eosor # 0 => Line.eosor <= Line.soeor)
                                /\ (Line.eoeor # 0 => Line.soeor # 0 /\ Line.soeor <= Line.eoeor),
                  <<Line.hook, Line.sosor, Line.eosor, Line.soeor, Line.eoeor>>)
-  /\ UNCHANGED <<scn, hooks, pred, reqi, tx, acq, step, lastw, pendA, failedH, okH, cancelled, cmds, laterStart, lateErr, sawAfter, inWin, winStarted, outStarted, run, ended, endS, endC>>
+  /\ UNCHANGED <<scn, hooks, pred, reqi, tx, acq, step, lastw, pendA, pendN, failedH, okH, cancelled, cmds, laterStart, lateErr, sawAfter, inWin, winStarted, outStarted, run, ended, endS, endC>>
 
 \* handleHooks starts the calls triggered at (moment, weight)   [hook point env.hooks.start]
 THStart ==
   /\ Line.ev = "HStart"
   /\ LET C == {Line.calls[i] : i \in 1..Len(Line.calls)} \cap HookIds IN
      /\ pendA' = pendA \cup C
+     /\ pendN' = AddN(pendN, Line.calls)
      \* (within one weight the calls are started first, then the calls due there are awaited, then the hook tasks run:
      \*  key = 3*weight + 0 | 1 | 2)
      /\ lastw' = 3 * Line.w + (IF Line.kind = "tasks" THEN 2 ELSE 0)
@@ -167,6 +174,7 @@ THAwaited ==
   /\ Line.ev = "HAwaited"
   /\ LET C == {Line.calls[i] : i \in 1..Len(Line.calls)} \cap HookIds IN
      /\ pendA' = pendA \ C
+     /\ pendN' = SubN(pendN, Line.calls)
      /\ failedH' = failedH \ C
      /\ okH' = okH \ C
      /\ lastw' = 3 * Line.w + (IF Line.kind = "tasks" THEN 2 ELSE 1)
@@ -178,6 +186,8 @@ THAwaited ==
           \* C08: the await points of a moment are passed in weight order too: nothing of a later weight was started before
           + Soft("Ordered", IF Line.kind = "tasks" THEN 3 * Line.w + 2 >= lastw ELSE 3 * Line.w + 1 > lastw, <<Line.m, Line.w, "await", lastw>>)
           + Soft("OnceOrCancelled", C \subseteq pendA, <<C, pendA>>)
+          \* ... exactly once: no more instances of a hook are collected here than were started and not collected before
+          + Soft("OnceOrCancelled", \A c \in C : Occ(Line.calls, c) <= Cnt(pendN, c), <<"collected again", Line.calls, pendN>>)
           \* C08: collecting a call means taking its result: every awaited call that has failed counts as an error here
           + Soft("OnceOrCancelled", Line.errors >= Cardinality(C \cap failedH), <<"result dropped", C \cap failedH, Line.errors>>)
           \* ... and a hook that has ended well before it was collected is not an error (its result is what is collected)
@@ -194,14 +204,14 @@ THE ==
   /\ open' = open \ {Line.hook}
   /\ failedH' = IF Line.ok THEN failedH ELSE failedH \cup ({Line.hook} \cap pendA)   \* failed and not yet collected
   /\ okH' = IF Line.ok THEN okH \cup ({Line.hook} \cap pendA) ELSE okH
-  /\ UNCHANGED <<scn, hooks, pred, reqi, tx, acq, step, lastw, pendA, cancelled, cmds, laterStart, lateErr, sawAfter, inWin, winStarted, outStarted, run, runView, seen, pg, ended, endS, endC, nviol>>
+  /\ UNCHANGED <<scn, hooks, pred, reqi, tx, acq, step, lastw, pendA, pendN, cancelled, cmds, laterStart, lateErr, sawAfter, inWin, winStarted, outStarted, run, runView, seen, pg, ended, endS, endC, nviol>>
 
 TCmd ==
   /\ Line.ev = "Cmd"
   /\ cmds' = IF Line.tx = tx THEN cmds + 1 ELSE cmds
   \* C10: values of a previous run are never visible in the next: after the START command a task holds no end-of-run time
   /\ nviol' = nviol + Soft("NoLeak", (Line.tx = "START_ACTIVITY") => ~Line.held, <<Line.tx, "task still holds run_end_time_ms of the previous run">>)
-  /\ UNCHANGED <<scn, hooks, pred, reqi, tx, acq, step, lastw, pendA, failedH, okH, open, cancelled, laterStart, lateErr, sawAfter, inWin, winStarted, outStarted, run, runView, seen, pg, ended, endS, endC>>
+  /\ UNCHANGED <<scn, hooks, pred, reqi, tx, acq, step, lastw, pendA, pendN, failedH, okH, open, cancelled, laterStart, lateErr, sawAfter, inWin, winStarted, outStarted, run, runView, seen, pg, ended, endS, endC>>
 
 \* published run events: SOSOR (START STARTED) opens a run; the end-of-run pair must occur exactly once per run
 TRun ==
@@ -231,7 +241,7 @@ TRun ==
              + Soft("EndExactlyOnce", ((isEndS \/ isEndC \/ isTd) /\ Line.rn # 0) => Line.rn = run, <<Line.tx, Line.rn, run>>)
              \* an end of run is recorded only for a run that was opened (SOSOR published)
              + Soft("EndExactlyOnce", (isEndS \/ isEndC) => run # 0, <<Line.tx, Line.status, "end-of-run record without a run">>)
-  /\ UNCHANGED <<scn, hooks, pred, reqi, tx, acq, step, lastw, pendA, failedH, okH, open, cancelled, cmds, laterStart, lateErr, sawAfter>>
+  /\ UNCHANGED <<scn, hooks, pred, reqi, tx, acq, step, lastw, pendA, pendN, failedH, okH, open, cancelled, cmds, laterStart, lateErr, sawAfter>>
 
 \* a ControlEnvironment reply: compared with the model's prediction; the run is over after a successful STOP,
 \* a failed START or any transition that ended in ERROR
@@ -250,23 +260,23 @@ TReply ==
              \* C10: the run number is gone after a successful STOP and reported while RUNNING
              + Soft("Gone", over => Line.rn = 0, <<Line.op, Line.st, Line.rn>>)
              + Soft("SetBetween", (Line.code = "OK" /\ Line.st = "RUNNING") => Line.rn = run, <<Line.op, Line.rn, run>>)
-  /\ UNCHANGED <<scn, hooks, pred, tx, acq, step, lastw, pendA, failedH, okH, open, cancelled, cmds, laterStart, lateErr, sawAfter, inWin, winStarted, outStarted, run, runView, seen, pg, endS, endC>>
+  /\ UNCHANGED <<scn, hooks, pred, tx, acq, step, lastw, pendA, pendN, failedH, okH, open, cancelled, cmds, laterStart, lateErr, sawAfter, inWin, winStarted, outStarted, run, runView, seen, pg, endS, endC>>
 
 \* end of a scenario: every run that was started has been ended exactly once
 TEnd ==
   /\ Line.ev = "End"
   /\ nviol' = nviol + Soft("EndExactlyOnce", run = 0 \/ ended \/ (endS = 1 /\ endC = 1), <<run, endS, endC>>)
-  /\ UNCHANGED <<scn, hooks, pred, reqi, tx, acq, step, lastw, pendA, failedH, okH, open, cancelled, cmds, laterStart, lateErr, sawAfter, inWin, winStarted, outStarted, run, runView, seen, pg, ended, endS, endC>>
+  /\ UNCHANGED <<scn, hooks, pred, reqi, tx, acq, step, lastw, pendA, pendN, failedH, okH, open, cancelled, cmds, laterStart, lateErr, sawAfter, inWin, winStarted, outStarted, run, runView, seen, pg, ended, endS, endC>>
 
 \* after the teardown: no started call is left waiting to hand over its result (each was collected, or cancelled at teardown)
 TPending ==
   /\ Line.ev = "Pending"
   /\ nviol' = nviol + Soft("OnceOrCancelled", Line.n = 0, <<"calls still pending after teardown", Line.n>>)
-  /\ UNCHANGED <<scn, hooks, pred, reqi, tx, acq, step, lastw, pendA, failedH, okH, open, cancelled, cmds, laterStart, lateErr, sawAfter, inWin, winStarted, outStarted, run, runView, seen, pg, ended, endS, endC>>
+  /\ UNCHANGED <<scn, hooks, pred, reqi, tx, acq, step, lastw, pendA, pendN, failedH, okH, open, cancelled, cmds, laterStart, lateErr, sawAfter, inWin, winStarted, outStarted, run, runView, seen, pg, ended, endS, endC>>
 
 TOther ==
   /\ Line.ev \notin {"Reset", "Acq", "Rel", "Step", "HS", "HStart", "HAwaited", "HE", "Cmd", "Run", "Reply", "End", "Pending"}
-  /\ UNCHANGED <<scn, hooks, pred, reqi, tx, acq, step, lastw, pendA, failedH, okH, open, cancelled, cmds, laterStart, lateErr, sawAfter, inWin, winStarted, outStarted, run, runView, seen, pg, ended, endS, endC, nviol>>
+  /\ UNCHANGED <<scn, hooks, pred, reqi, tx, acq, step, lastw, pendA, pendN, failedH, okH, open, cancelled, cmds, laterStart, lateErr, sawAfter, inWin, winStarted, outStarted, run, runView, seen, pg, ended, endS, endC, nviol>>
 
 TraceNext ==
   /\ l <= Len(Trace)
